@@ -16,14 +16,16 @@ RULE = ("Engine F: generated factories, every node type x blocking flag x out-ed
         "generation instant and the next inter-arrival draw happens in that same instant (it never waits). Non-blocking "
         "splitter/combiner: nothing is pushed later than its ready instant. Non-trivial: a node met a full selected "
         "out-edge at least once and a free one at least once.")
+RULE += (" Two in ten flow-shaped factories also contain rework loops (a machine feeding itself or a machine of an earlier layer through a "
+         "Buffer / Fleet edge with a strictly positive delay / transit time, so no zero-time cycle exists); machine oracles work per visit, not per item.")
 ASSUMPTIONS = ["non-blocking nodes in front of conveyors are excluded by construction (known finding K1, C20)",
                "room is judged for Buffer/Fleet out-edges at the kernel event of the probe"]
 
-PROFILE = {"conveyors": False, "pack": 3, "finite": 2, "nonblocking": True}
+PROFILE = {"cycles": 2, "conveyors": False, "pack": 3, "finite": 2, "nonblocking": True}
 
 
 def examples(tier):
-    return 4000 if tier == "quick" else 80000
+    return 8000 if tier == "quick" else 240000
 
 
 def _more_nonblocking(spec):
@@ -93,14 +95,14 @@ class BlockingOracle(FOracle):
         if ns.get("blocking", True):
             tp = self.book.t_pull.get((nid, id(e.item)))
             if self.kinds[nid] == "Machine" and tp is not None:
-                j = next((i for i, p in enumerate(self.book.pulls[nid]) if p[2] is e.item), None)
+                j = self.book.pull_idx.get((nid, id(e.item)))
                 d = self.delay_of(f, nid, j) if j is not None else None
                 if d is not None:
                     (self.met_full if e.t > tp[0] + d else self.met_free).add(nid)
             return
         if self.kinds[nid] == "Machine":
             tp = self.book.t_pull.get((nid, id(e.item)))
-            j = next((i for i, p in enumerate(self.book.pulls[nid]) if p[2] is e.item), None)
+            j = self.book.pull_idx.get((nid, id(e.item)))
             d = self.delay_of(f, nid, j) if j is not None else None
             if tp is not None and d is not None and e.t != tp[0] + d:
                 self.v(nid, self.sig(f, nid, "waited_nonblocking"),
